@@ -36,6 +36,9 @@ def models(tier):
             cfg["peers"][0].update(ov)
             out.append(monitors.ScenarioModel(f"outbound-idle{idle}-dwa{dwa}-wake{wake}-peer:{oname}", cfg, alpha, MONS, max_socks=1,
                                               prelude=[("m", 0, "cea_ok")], deviations=dev, start_plan=["ok"]))
+    # a second deterministic scheduling policy (the I/O thread runs only when nothing else can): thorough tier
+    if tier == "thorough":
+        out = monitors.with_io_last(out)
     return out
 
 
